@@ -9,6 +9,7 @@ for d in /tmp/wt/C*/_seed /tmp/wt2/C*/_seed /tmp/wt3/C*/_seed /tmp/wt4/C*/_seed;
     [ -f "$d/$L.diff" ] || continue
     S=$L
     case $d in /tmp/wt2/*) S=$(echo $L | tr AB CD);; /tmp/wt3/*) S=$(echo $L | tr AB EF);; /tmp/wt4/*) S=$(echo $L | tr AB GH);; esac
+    [ -f "seeded/$p-$S/meta.json" ] && [ -z "$FORCE" ] && continue
     list="$list $d:$p:$L:$S"
   done
 done
